@@ -600,3 +600,65 @@ def u9(ctx):
 def u10(ctx):
     from .c14 import v2
     return [o for o in v2(ctx) if "open_by_content_type" in o.construct]
+
+
+@rule("C06", "U11", floor=1, kind="N",
+      desc="the UID check sees every member: a name made up for a POSTed member gets its extension from a bare media "
+           "type (same obligations as C12/A12) - with parameters in the string no extension is found, and the scan, "
+           "which opens members by extension, never sees that member's UID")
+def u11(ctx):
+    from .c12 import a12
+    return a12(ctx)
+
+
+@rule("C06", "U12", floor=2, kind="S",
+      desc="the uid maps say what the listing says: they are created in the constructor and written by the scan only - "
+           "an entry made anywhere else has no counterpart the scan could release, so a UID stays claimed by a write "
+           "that failed or by a resource that no longer holds it")
+def u12(ctx):
+    from .storelib import STORE_MODULES
+    obs = []
+    inl = ctx.cfgs.inliner
+    names = set()
+    for cq in STORES:
+        names.update(map_names(ctx, cq))
+    n_fn = 0
+    store_root = ctx.P.cls("xandikos.store.Store")
+    for m in sorted(mn for mn in ctx.P.modules if mn == "xandikos.store" or mn.startswith("xandikos.store.")):
+        for fi in ctx.P.funcs_in_module(m):
+            if fi.cls is None or inl.is_new(fi) or store_root not in fi.cls.mro:
+                continue      # helpers unknown to the reference tree are seen where they are inlined
+            try:
+                cfg = ctx.cfg(fi)
+            except AnalysisError:
+                continue
+            n_fn += 1
+            sites = []
+            for n in cfg.stmt_nodes():
+                a = n.ast
+                if n.kind != "stmt":
+                    continue
+                if isinstance(a, (ast.Assign, ast.Delete, ast.AugAssign, ast.AnnAssign)):
+                    tgs = a.targets if isinstance(a, (ast.Assign, ast.Delete)) else [a.target]
+                    for t in tgs:
+                        if isinstance(t, ast.Subscript) and dotted(t.value) in names:
+                            sites.append((n, dotted(t.value)))
+                        elif dotted(t) in names and not (isinstance(a, ast.AnnAssign) and a.value is None):
+                            sites.append((n, dotted(t)))
+                for c in n.calls():
+                    if isinstance(c.func, ast.Attribute) and c.func.attr in ("pop", "popitem", "clear", "update", "setdefault", "__setitem__", "__delitem__") \
+                            and dotted(c.func.value) in names:
+                        sites.append((n, dotted(c.func.value)))
+            if not sites and fi.name not in ("_scan_uids", "__init__"):
+                continue
+            allowed = fi.name in ("_scan_uids", "__init__")
+            if allowed and not sites:
+                continue
+            obs.append(ctx.ob(allowed, fi.qualname, fi.where, "uid maps written only by the scan / constructor",
+                              "%d write sites in %s" % (len(sites), fi.name),
+                              "%s writes %s (`%s`, line %d) outside _scan_uids: the entry has no counterpart in the other map that a "
+                              "later scan would release, so the UID stays bound after the write fails or the resource changes its UID"
+                              % (fi.short, sites[0][1].split(".", 1)[-1], src(sites[0][0].ast)[:60], sites[0][0].lineno) if sites else ""))
+    if n_fn < 20:
+        raise AnalysisError("only %d store methods analysed (confirmed: >= 20)" % n_fn)
+    return obs
